@@ -558,7 +558,8 @@ partial def run (tid : Nat) : M Unit := do
           updateData cur kvs
         | _ => throw (.package "set params")
       for k in childrenIn n .normal none do discard <| schedTask k
-    emitTask (← get).cur
+    -- the task that ran is reported (`cur` was read before the package ran), not whatever the context points to afterwards
+    emitTask cur
 
 /-- resume of a pending child inside `step.next / step.review / act.next` -/
 partial def resume (tid : Nat) : M Unit := do
